@@ -14,6 +14,7 @@ import (
 	"sort"
 	"strings"
 
+	"github.com/pentops/j5/gen/j5/ext/v1/ext_j5pb"
 	"github.com/pentops/j5/gen/j5/list/v1/list_j5pb"
 	"github.com/pentops/j5/gen/j5/schema/v1/schema_j5pb"
 	"github.com/pentops/j5/lib/j5schema"
@@ -24,6 +25,7 @@ import (
 	"google.golang.org/protobuf/reflect/protodesc"
 	"google.golang.org/protobuf/reflect/protoreflect"
 	"google.golang.org/protobuf/types/descriptorpb"
+	"google.golang.org/protobuf/types/known/timestamppb"
 
 	"verifharness/vh"
 )
@@ -140,6 +142,9 @@ func (t FTy) toProto(env EnumEnv) *schema_j5pb.Field {
 		if l != nil {
 			f.ListRules = &list_j5pb.FloatRules{Filtering: filtering(l), Sorting: sorting(l)}
 		}
+		if t.FloatR {
+			f.Rules = &schema_j5pb.FloatField_Rules{Minimum: ptr(1.5)}
+		}
 		return &schema_j5pb.Field{Type: &schema_j5pb.Field_Float{Float: f}}
 	case TDate:
 		f := &schema_j5pb.DateField{}
@@ -161,6 +166,15 @@ func (t FTy) toProto(env EnumEnv) *schema_j5pb.Field {
 		return &schema_j5pb.Field{Type: &schema_j5pb.Field_Decimal{Decimal: f}}
 	case TTimestamp:
 		f := &schema_j5pb.TimestampField{}
+		if r := t.TS; r != nil {
+			f.Rules = &schema_j5pb.TimestampField_Rules{ExclusiveMinimum: r.XMin, ExclusiveMaximum: r.XMax}
+			if r.Min != nil {
+				f.Rules.Minimum = &timestamppb.Timestamp{Seconds: *r.Min}
+			}
+			if r.Max != nil {
+				f.Rules.Maximum = &timestamppb.Timestamp{Seconds: *r.Max}
+			}
+		}
 		if l != nil {
 			f.ListRules = &list_j5pb.TimestampRules{Filtering: filtering(l), Sorting: sorting(l)}
 		}
@@ -172,10 +186,17 @@ func (t FTy) toProto(env EnumEnv) *schema_j5pb.Field {
 		}
 		return &schema_j5pb.Field{Type: &schema_j5pb.Field_Any{Any: f}}
 	case TObject:
-		return &schema_j5pb.Field{Type: &schema_j5pb.Field_Object{Object: &schema_j5pb.ObjectField{
-			Schema: &schema_j5pb.ObjectField_Ref{Ref: &schema_j5pb.Ref{Package: "foo.v1", Schema: "Bar"}}, Flatten: t.Flatten}}}
+		of := &schema_j5pb.ObjectField{
+			Schema: &schema_j5pb.ObjectField_Ref{Ref: &schema_j5pb.Ref{Package: "foo.v1", Schema: "Bar"}}, Flatten: t.Flatten}
+		if r := t.ObjR; r != nil {
+			of.Rules = &schema_j5pb.ObjectField_Rules{MinProperties: r.Min, MaxProperties: r.Max}
+		}
+		return &schema_j5pb.Field{Type: &schema_j5pb.Field_Object{Object: of}}
 	case TOneof:
 		f := &schema_j5pb.OneofField{Schema: &schema_j5pb.OneofField_Ref{Ref: &schema_j5pb.Ref{Package: "foo.v1", Schema: "Choice"}}}
+		if t.OneofR {
+			f.Rules = &schema_j5pb.OneofField_Rules{}
+		}
 		if l != nil {
 			f.ListRules = &list_j5pb.OneofRules{Filtering: filtering(l)}
 		}
@@ -276,7 +297,7 @@ func ftyFromProto(f *schema_j5pb.Field) (FTy, bool) {
 		if t.Float.Format != schema_j5pb.FloatField_FORMAT_FLOAT32 && t.Float.Format != schema_j5pb.FloatField_FORMAT_FLOAT64 {
 			return FTy{}, false
 		}
-		return FTy{Kind: TFloat, F64: t.Float.Format == schema_j5pb.FloatField_FORMAT_FLOAT64, List: lpayFromMsg(t.Float.ListRules)}, true
+		return FTy{Kind: TFloat, F64: t.Float.Format == schema_j5pb.FloatField_FORMAT_FLOAT64, FloatR: t.Float.Rules != nil, List: lpayFromMsg(t.Float.ListRules)}, true
 	case *schema_j5pb.Field_Date:
 		out := FTy{Kind: TDate, List: lpayFromMsg(t.Date.ListRules)}
 		if r := t.Date.Rules; r != nil {
@@ -290,13 +311,27 @@ func ftyFromProto(f *schema_j5pb.Field) (FTy, bool) {
 		}
 		return out, true
 	case *schema_j5pb.Field_Timestamp:
-		return FTy{Kind: TTimestamp, List: lpayFromMsg(t.Timestamp.ListRules)}, true
+		out := FTy{Kind: TTimestamp, List: lpayFromMsg(t.Timestamp.ListRules)}
+		if r := t.Timestamp.Rules; r != nil {
+			out.TS = &TSRules{XMin: r.ExclusiveMinimum, XMax: r.ExclusiveMaximum}
+			if r.Minimum != nil {
+				out.TS.Min = ptr(r.Minimum.Seconds)
+			}
+			if r.Maximum != nil {
+				out.TS.Max = ptr(r.Maximum.Seconds)
+			}
+		}
+		return out, true
 	case *schema_j5pb.Field_Any:
 		return FTy{Kind: TAny, AnyOD: t.Any.OnlyDefined, AnyT: t.Any.Types, List: lpayFromMsg(t.Any.ListRules)}, true
 	case *schema_j5pb.Field_Object:
-		return FTy{Kind: TObject, Flatten: t.Object.Flatten}, true
+		out := FTy{Kind: TObject, Flatten: t.Object.Flatten}
+		if r := t.Object.Rules; r != nil {
+			out.ObjR = &ObjRules{Min: r.MinProperties, Max: r.MaxProperties}
+		}
+		return out, true
 	case *schema_j5pb.Field_Oneof:
-		return FTy{Kind: TOneof, List: lpayFromMsg(t.Oneof.ListRules)}, true
+		return FTy{Kind: TOneof, OneofR: t.Oneof.Rules != nil, List: lpayFromMsg(t.Oneof.ListRules)}, true
 	}
 	return FTy{}, false
 }
@@ -348,9 +383,21 @@ func cleanDesc(d string) string {
 	return strings.Join(out, "\n")
 }
 
+// descPlain: the description survives the reader's commentDescription unchanged
+func descPlain(d string) bool { return cleanDesc(d) == d }
+
+// descExpressible: the j5s text can say this description (no padded lines)
+func descExpressible(d string) bool {
+	for _, l := range strings.Split(d, "\n") {
+		if strings.TrimSpace(l) != l {
+			return false
+		}
+	}
+	return true
+}
+
 func normProp(env EnumEnv, p Prop) Prop {
-	q := p
-	q.Desc = cleanDesc(p.Desc)
+	q := p // the description stays as declared
 	q.Req = p.Req || (isPrimary(p) && p.PK != PMap)
 	t := p.T
 	switch t.Kind {
@@ -392,6 +439,23 @@ func normProp(env EnumEnv, p Prop) Prop {
 			}
 			t.Entity = &n
 		}
+	case TTimestamp:
+		if r := t.TS; r != nil {
+			n := &TSRules{Min: r.Min, Max: r.Max}
+			if r.Min != nil && isTrue(r.XMin) {
+				n.XMin = ptr(true)
+			}
+			if r.Max != nil && isTrue(r.XMax) {
+				n.XMax = ptr(true)
+			}
+			t.TS = n
+		}
+	case TObject:
+		if r := t.ObjR; r != nil && r.Min == nil && r.Max == nil {
+			t.ObjR = nil // rules without content: present = absent
+		}
+	case TOneof:
+		t.OneofR = false // OneofField.Rules has no fields
 	}
 	q.T = t
 	// the reader reports (empty) array rules whenever the field carries a repeated
@@ -420,6 +484,12 @@ func itemsCarryConstraint(t FTy) bool {
 		return true
 	case TKey:
 		return t.KF != KNone
+	case TTimestamp:
+		return t.TS != nil
+	case TObject:
+		return t.ObjR != nil
+	case TOneof:
+		return t.OneofR
 	}
 	return false
 }
@@ -471,15 +541,94 @@ func retype(files []protoreflect.FileDescriptor, path string) (protoreflect.File
 	return reg.FindFileByPath(path)
 }
 
+// reflectStripped: the object reflected from the in-memory descriptors after
+// removing the options of the value fields of its map entries — what the
+// printed text can at most carry (map<K,V> syntax has no place for them)
+func reflectStripped(files []protoreflect.FileDescriptor, path string, msg protoreflect.Name) (r reflected) {
+	defer func() {
+		if p := recover(); p != nil {
+			r.panic = p
+		}
+	}()
+	set := &descriptorpb.FileDescriptorSet{}
+	for _, f := range compile.WithDeps(files) {
+		b, err := proto.Marshal(compile.ToProto(f))
+		if err != nil {
+			r.err = err
+			return
+		}
+		fdp := &descriptorpb.FileDescriptorProto{}
+		if err := proto.Unmarshal(b, fdp); err != nil {
+			r.err = err
+			return
+		}
+		if fdp.GetName() == path {
+			for _, m := range fdp.MessageType {
+				if m.GetName() != string(msg) {
+					continue
+				}
+				// `optional` on a repeated field is not printable either (and protodesc
+				// refuses it); the reader ignores it there: drop it with its synthetic oneof
+				for _, f := range m.Field {
+					if f.GetLabel() == descriptorpb.FieldDescriptorProto_LABEL_REPEATED {
+						f.Proto3Optional = nil
+						f.OneofIndex = nil
+					}
+				}
+				used := map[int32]int32{}
+				var decls []*descriptorpb.OneofDescriptorProto
+				for _, f := range m.Field {
+					if f.OneofIndex != nil {
+						if _, ok := used[*f.OneofIndex]; !ok {
+							used[*f.OneofIndex] = int32(len(decls))
+							decls = append(decls, m.OneofDecl[*f.OneofIndex])
+						}
+						f.OneofIndex = proto.Int32(used[*f.OneofIndex])
+					}
+				}
+				m.OneofDecl = decls
+				for _, n := range m.NestedType {
+					if n.GetOptions().GetMapEntry() {
+						for _, f := range n.Field {
+							if f.GetNumber() == 2 {
+								f.Options = nil
+							}
+						}
+					}
+				}
+			}
+		}
+		set.File = append(set.File, fdp)
+	}
+	reg, err := protodesc.NewFiles(set)
+	if err != nil {
+		r.err = err
+		return
+	}
+	fd, err := reg.FindFileByPath(path)
+	if err != nil {
+		r.err = err
+		return
+	}
+	md := fd.Messages().ByName(msg)
+	if md == nil {
+		r.err = fmt.Errorf("message missing")
+		return
+	}
+	return reflectObject(md)
+}
+
 type reflected struct {
 	obj     *schema_j5pb.Object
 	enum    *schema_j5pb.Enum // the enum the sentinel property zz refers to
 	isOneof bool
+	md      protoreflect.MessageDescriptor
 	err     error
 	panic   any
 }
 
 func reflectObject(md protoreflect.MessageDescriptor) (r reflected) {
+	r.md = md
 	defer func() {
 		if p := recover(); p != nil {
 			r.panic = p
@@ -650,7 +799,7 @@ func runC04(cfg *vh.Config) error {
 		}
 		var props []genDecl
 		for i, n := 0, r.Range(2, 7); i < n; i++ {
-			gd := genProp04(r, fmt.Sprintf("f%d", i), env)
+			gd := genProp04(r, propName(r, i), env)
 			if gd.Class == "compile-error" {
 				continue // compile failures are C12's stream
 			}
@@ -723,7 +872,17 @@ func runC04(cfg *vh.Config) error {
 			}
 			refl = "(Ok [" + strings.Join(terms, ";") + "])"
 		}
-		cf.Terms = append(cf.Terms, fmt.Sprintf("C04Case %s [%s] [%s] %s", env.Coq(), strings.Join(dterms, ";"), strings.Join(outs, ";"), refl))
+		// the direct oracle's verdict per property (declared = reflected), compared in
+		// Coq with rt_ok: the exactness theorem says they coincide
+		var same []string
+		for i, p := range props {
+			eq := false
+			if i < len(reflProps) {
+				eq = proto.Equal(normProp(env, p.P).toProto(env, int32(i+1)), reflProps[i])
+			}
+			same = append(same, vh.BoolTerm(eq))
+		}
+		cf.Terms = append(cf.Terms, fmt.Sprintf("C04Case %s [%s] [%s] %s [%s]", env.Coq(), strings.Join(dterms, ";"), strings.Join(outs, ";"), refl, strings.Join(same, ";")))
 		res.Cases = append(res.Cases, vh.CaseRec{Case: caseNo, Stream: "object", Input: input, Impl: map[string]any{"reflected": protoString(mem.obj), "error": fmt.Sprint(mem.err), "panic": fmt.Sprint(mem.panic)}})
 		res.Sample(map[string]any{"j5s": src, "reflected": protoString(mem.obj)}, 3)
 
@@ -735,9 +894,19 @@ func runC04(cfg *vh.Config) error {
 			var vals []string
 			for i := 0; i < ed.Values().Len(); i++ {
 				v := ed.Values().Get(i)
-				vals = append(vals, fmt.Sprintf("(%s, (%d)%%Z, %s)", vh.BytesTerm(string(v.Name())), v.Number(), vh.BytesTerm(declaredComment(v))))
+				var vinfo map[string]string
+				if x, ok := proto.GetExtension(v.Options(), ext_j5pb.E_EnumValue).(*ext_j5pb.EnumValueOptions); ok && x != nil {
+					vinfo = x.Info
+				}
+				vals = append(vals, fmt.Sprintf("(%s, (%d)%%Z, %s, %s)", vh.BytesTerm(string(v.Name())), v.Number(), vh.BytesTerm(declaredComment(v)), infoTerm(vinfo)))
 			}
-			obsEnum := fmt.Sprintf("(EO %s [%s])", vh.BytesTerm(declaredComment(ed)), strings.Join(vals, ";"))
+			var efields [][3]string
+			if x, ok := proto.GetExtension(ed.Options(), ext_j5pb.E_Enum).(*ext_j5pb.EnumOptions); ok && x != nil {
+				for _, f := range x.InfoFields {
+					efields = append(efields, [3]string{f.Name, f.Label, f.Description})
+				}
+			}
+			obsEnum := fmt.Sprintf("(EO %s [%s] %s)", vh.BytesTerm(declaredComment(ed)), strings.Join(vals, ";"), infoFieldsTerm(efields))
 			reflEnum := `(Err "reflect")`
 			if mem.panic != nil {
 				reflEnum = `(Panic "reflect")`
@@ -745,10 +914,14 @@ func runC04(cfg *vh.Config) error {
 			if mem.enum != nil {
 				var ros []string
 				for _, o := range mem.enum.Options {
-					ros = append(ros, fmt.Sprintf("(%s, (%d)%%Z, %s)", vh.BytesTerm(o.Name), o.Number, vh.BytesTerm(o.Description)))
+					ros = append(ros, fmt.Sprintf("(%s, (%d)%%Z, %s, %s)", vh.BytesTerm(o.Name), o.Number, vh.BytesTerm(o.Description), infoTerm(o.Info)))
 				}
-				reflEnum = fmt.Sprintf("(Ok (RE %s %s [%s]))", vh.BytesTerm(mem.enum.Description), vh.BytesTerm(mem.enum.Prefix), strings.Join(ros, ";"))
-				if mem.enum.Name != env.Name || len(mem.enum.Info) != 0 || optionInfo(mem.enum) {
+				var rfields [][3]string
+				for _, f := range mem.enum.Info {
+					rfields = append(rfields, [3]string{f.Name, f.Label, f.Description})
+				}
+				reflEnum = fmt.Sprintf("(Ok (RE %s %s [%s] %s))", vh.BytesTerm(mem.enum.Description), vh.BytesTerm(mem.enum.Prefix), strings.Join(ros, ";"), infoFieldsTerm(rfields))
+				if mem.enum.Name != env.Name {
 					reflEnum = `(Err "outside the model")`
 				}
 				// direct oracle: the declared enum
@@ -756,7 +929,7 @@ func runC04(cfg *vh.Config) error {
 				evals++
 				if !proto.Equal(want, mem.enum) {
 					sig := "C04 enum: reflected schema differs from the declared one at " + strings.Join(collapse(diffPaths(want, mem.enum), false), " ")
-					if env.Unspecified != "" && env.Unspecified != "UNSPECIFIED" && env.Unspecified != env.Prefix+"UNSPECIFIED" {
+					if env.Unspecified != "" && env.Unspecified != "UNSPECIFIED" && env.Unspecified != env.Prefix+"UNSPECIFIED" && allUnder(diffPaths(want, mem.enum), []string{".prefix", ".options"}) {
 						sig = "C04 enum whose explicit first option is another name ending in UNSPECIFIED: the reflected prefix and option names are derived from it"
 					}
 					res.Fail(vh.Failure{Case: caseNo, Stream: "enum", Sig: sig,
@@ -768,9 +941,33 @@ func runC04(cfg *vh.Config) error {
 					res.Fail(vh.Failure{Case: caseNo, Stream: "text", Sig: "C04 enum schema reflected from the printed .proto text differs from the in-memory one", Clause: "the same schema is obtained from the generated .proto text", Input: map[string]any{"j5s": env.J5S(), "proto": text}, Got: protoString(txt.enum), Want: protoString(mem.enum)})
 				}
 			}
-			cf.Terms = append(cf.Terms, fmt.Sprintf("C04Enum %s %s %s", env.DeclCoq(), obsEnum, reflEnum))
-			res.Cases = append(res.Cases, vh.CaseRec{Case: caseNo, Stream: "enum", Input: map[string]any{"j5s": env.J5S()}, Impl: map[string]any{"compiled": obsEnum, "reflected": protoString(mem.enum)}})
-			res.Count("enum")
+			// ---- the text clause: the reader's view of every field after print + parse
+			if txt.md != nil && mem.obj != nil && txt.obj != nil && txt.md.Fields().Len() == md.Fields().Len() {
+				var touts []string
+				for i := range props {
+					touts = append(touts, foutTerm(txt.md.Fields().Get(i)))
+				}
+				sameSchema := true
+				for i := range props {
+					if i >= len(mem.obj.Properties) || i >= len(txt.obj.Properties) || !proto.Equal(mem.obj.Properties[i], txt.obj.Properties[i]) {
+						sameSchema = false
+					}
+				}
+				cf.Terms = append(cf.Terms, fmt.Sprintf("C04Text [%s] [%s] %s", strings.Join(outs, ";"), strings.Join(touts, ";"), vh.BoolTerm(sameSchema)))
+				res.Cases = append(res.Cases, vh.CaseRec{Case: caseNo, Stream: "text", Input: input, Impl: map[string]any{"same_schema": sameSchema}})
+				res.Count("text-view")
+				if strings.Join(outs, ";") == strings.Join(touts, ";") {
+					res.Count("text-view-identical")
+				}
+			}
+			if mem.enum == nil && mem.err != nil && mem.panic == nil {
+				// the enum is reached through the object; the object did not reflect (reported below)
+				res.Count("enum-not-reflected")
+			} else {
+				cf.Terms = append(cf.Terms, fmt.Sprintf("C04Enum %s %s %s", env.DeclCoq(), obsEnum, reflEnum))
+				res.Cases = append(res.Cases, vh.CaseRec{Case: caseNo, Stream: "enum", Input: map[string]any{"j5s": env.J5S()}, Impl: map[string]any{"compiled": obsEnum, "reflected": protoString(mem.enum)}})
+				res.Count("enum")
+			}
 		}
 
 		// ---- direct oracle 1: declared vs reflected
@@ -780,13 +977,22 @@ func runC04(cfg *vh.Config) error {
 			res.Fail(vh.Failure{Case: caseNo, Stream: "reflect", Sig: "C04 reflecting the compiled object panics: " + firstWords(fmt.Sprint(mem.panic), 8), Clause: "reflection yields the declared schema", Input: input, Got: fmt.Sprint(mem.panic)})
 		case mem.err != nil:
 			res.Count("reflect-error")
-			res.Fail(vh.Failure{Case: caseNo, Stream: "reflect", Sig: "C04 reflecting the compiled object fails: " + firstWords(mem.err.Error(), 8), Clause: "reflection yields the declared schema", Input: input, Got: mem.err.Error()})
+			sig := "C04 reflecting the compiled object fails: " + firstWords(mem.err.Error(), 8)
+			if strings.Contains(mem.err.Error(), "open_text and format") {
+				for _, p := range props {
+					t := p.P.T
+					if t.Kind == TStr && t.List != nil && t.Str != nil && t.Str.Pat != nil && (*t.Str.Pat == wellKnownPatterns[0] || *t.Str.Pat == wellKnownPatterns[1] || *t.Str.Pat == wellKnownPatterns[2]) {
+						sig = "C04 string whose pattern is one of the reader's well-known patterns (date / number / id62) and which carries list rules: the reader fails (open_text and format do not match), the object does not reflect"
+					}
+				}
+			}
+			res.Fail(vh.Failure{Case: caseNo, Stream: "reflect", Sig: sig, Clause: "reflection yields the declared schema", Input: input, Got: mem.err.Error()})
 		default:
 			res.Count("reflected")
 			if mem.isOneof != (kind == "oneof") {
 				res.Fail(vh.Failure{Case: caseNo, Stream: "reflect", Sig: "C04 root schema kind differs (object vs oneof)", Clause: "for every object, oneof and enum", Input: input, Got: protoString(mem.obj)})
 			}
-			if mem.obj.Name != "Foo" || mem.obj.Description != cleanDesc(objDesc) {
+			if mem.obj.Name != "Foo" || mem.obj.Description != objDesc {
 				res.Fail(vh.Failure{Case: caseNo, Stream: "reflect", Sig: "C04 object name/description differs", Clause: "descriptions", Input: input, Got: protoString(mem.obj)})
 			}
 			if len(reflProps) != len(pl) {
@@ -802,16 +1008,30 @@ func runC04(cfg *vh.Config) error {
 					res.Count("property-equal")
 					continue
 				}
-				res.Count("property-differs")
 				raw := diffPaths(want, reflProps[i])
-				paths := collapse(raw, p.P.PK == PMap)
-				sig := fmt.Sprintf("C04 %s: reflected schema differs from the declared one at %s", shapeOf(p.P), strings.Join(paths, " "))
-				if csig, allowed := asymmetryClass(p); csig != "" && allUnder(raw, allowed) {
-					sig = csig
+				if !descExpressible(p.P.Desc) { // a padded description cannot be written in j5s text: not judged
+					var rest []string
+					for _, x := range raw {
+						if x != ".description" {
+							rest = append(rest, x)
+						}
+					}
+					if raw = rest; len(raw) == 0 {
+						res.Count("property-not-judged")
+						continue
+					}
 				}
-				res.Fail(vh.Failure{Case: caseNo, Stream: "reflect", Sig: sig,
-					Clause: "reflection yields the declared schema", Input: map[string]any{"j5s": p.P.J5S(env), "object": src},
-					Got: protoString(reflProps[i]), Want: protoString(want)})
+				res.Count("property-differs")
+				paths := collapse(raw, p.P.PK == PMap)
+				sigs := explain(p, raw)
+				if sigs == nil {
+					sigs = []string{fmt.Sprintf("C04 %s: reflected schema differs from the declared one at %s", shapeOf(p.P), strings.Join(paths, " "))}
+				}
+				for _, sig := range sigs {
+					res.Fail(vh.Failure{Case: caseNo, Stream: "reflect", Sig: sig,
+						Clause: "reflection yields the declared schema", Input: map[string]any{"j5s": p.P.J5S(env), "object": src},
+						Got: protoString(reflProps[i]), Want: protoString(want)})
+				}
 			}
 		}
 		// ---- direct oracle 2: the printed text reflects to the same schema
@@ -823,20 +1043,33 @@ func runC04(cfg *vh.Config) error {
 		case mem.obj != nil:
 			res.Count("text-reflected")
 			if !proto.Equal(mem.obj, txt.obj) {
-				var shapes []string
+				// one failure per differing property; the signature names where the two
+				// reflected schemas differ (collapsed to the rule group)
+				reported := map[string]bool{}
+				stripped := reflectStripped(c.files, string(c.file.Path()), "Foo")
 				for i, p := range props {
-					if i < len(mem.obj.Properties) && i < len(txt.obj.Properties) && !proto.Equal(mem.obj.Properties[i], txt.obj.Properties[i]) {
-						what := "plain"
-						if p.P.PK == PMap {
-							what = "map"
-						}
-						shapes = append(shapes, what)
+					if i >= len(mem.obj.Properties) || i >= len(txt.obj.Properties) || proto.Equal(mem.obj.Properties[i], txt.obj.Properties[i]) {
+						continue
+					}
+					what := "plain"
+					if p.P.PK == PMap {
+						what = "map"
+					}
+					paths := collapse(diffPaths(mem.obj.Properties[i], txt.obj.Properties[i]), false)
+					sig := fmt.Sprintf("C04 text: %s property reflected from the printed .proto text differs from the in-memory one at %s", what, strings.Join(paths, " "))
+					if p.P.PK == PMap && stripped.obj != nil && i < len(stripped.obj.Properties) && proto.Equal(stripped.obj.Properties[i], txt.obj.Properties[i]) {
+						sig = "C04 text: options on the value field of a map entry cannot be written in map<,> syntax; the printed text reflects exactly as the descriptor without them does"
+					}
+					if !reported[sig] {
+						reported[sig] = true
+						res.Fail(vh.Failure{Case: caseNo, Stream: "text", Sig: sig, Clause: "the same schema is obtained from the generated .proto text",
+							Input: map[string]any{"j5s": p.P.J5S(env), "proto": text}, Got: protoString(txt.obj.Properties[i]), Want: protoString(mem.obj.Properties[i])})
 					}
 				}
-				sort.Strings(shapes)
-				paths := diffPaths(mem.obj, txt.obj)
-				_ = paths
-				res.Fail(vh.Failure{Case: caseNo, Stream: "text", Sig: "C04 schema reflected from the printed .proto text differs from the in-memory one for properties: " + strings.Join(dedup(shapes), ","), Clause: "the same schema is obtained from the generated .proto text", Input: map[string]any{"j5s": src, "proto": text}, Got: protoString(txt.obj), Want: protoString(mem.obj)})
+				if len(reported) == 0 {
+					res.Fail(vh.Failure{Case: caseNo, Stream: "text", Sig: "C04 text: object reflected from the printed .proto text differs from the in-memory one outside its properties", Clause: "the same schema is obtained from the generated .proto text",
+						Input: map[string]any{"j5s": src, "proto": text}, Got: protoString(txt.obj), Want: protoString(mem.obj)})
+				}
 			}
 		}
 		caseNo++
@@ -877,7 +1110,12 @@ func dedup(xs []string) []string {
 // declaration; the class signature is used only when every differing path lies
 // where the asymmetry explains it, so that any other difference on the same
 // property keeps its own (path-based) signature.
-func asymmetryClass(p genDecl) (string, []string) {
+type asymmetry struct {
+	sig     string
+	allowed []string
+}
+
+func asymmetryClasses(p genDecl) []asymmetry {
 	item := ".schema"
 	switch p.P.PK {
 	case PArray:
@@ -886,27 +1124,77 @@ func asymmetryClass(p genDecl) (string, []string) {
 		item = ".schema.map.itemSchema"
 	}
 	t := p.P.T
-	switch {
-	case p.P.PK == PMap && t.List != nil:
-		return "C04 map: list rules of the item schema are written on the entry's value field and not read back", []string{item}
-	case t.Kind == TStr && t.SFormat != nil:
-		return "C04 string format: StringField.format is not written to the descriptor and does not read back", []string{item + ".string.format"}
-	case t.Kind == TAny && (t.AnyOD || len(t.AnyT) > 0) && p.P.PK != PSingle:
-		return "C04 array of any with onlyDefined / types: (j5.ext.v1.field).any is replaced by the array annotation", []string{item + ".any.onlyDefined", item + ".any.types"}
-	case t.Kind == TKey && t.KF == KCustom:
-		return "C04 key:custom: the pattern is written as (buf.validate.field).string.pattern and not read back as a key format", []string{item + ".key", item + ".string"}
-	case t.Kind == TKey && t.KF == KInformal:
-		return "C04 key:informal: reads back as a key without format (or as a string inside an array)", []string{item + ".key", item + ".string"}
-	case t.Kind == TKey && t.KF == KNone && t.List != nil:
-		return "C04 key without format but with list rules: reads back as key:informal", []string{item + ".key.format"}
-	case t.Kind == TKey && t.KF == KNone && p.P.PK != PSingle && t.Entity == nil:
-		return "C04 array of key without format: (j5.ext.v1.field) is the array's, the items read back as string", []string{item + ".key", item + ".string"}
-	case (t.Kind == TDate || t.Kind == TDecimal) && t.Txt != nil && p.P.PK != PSingle:
-		return "C04 array of date/decimal with rules: the rules live in (j5.ext.v1.field), which the array annotation overwrites", []string{item + ".date.rules", item + ".decimal.rules"}
-	case t.Kind == TObject && t.Flatten && p.P.PK != PSingle:
-		return "C04 array of flattened object: flatten lives in (j5.ext.v1.field), which the array annotation overwrites", []string{item + ".object.flatten"}
+	if p.P.PK == PMap {
+		t.List = nil // list rules of map values do not reach the reader (own class below)
 	}
-	return "", nil
+	var out []asymmetry
+	add := func(sig string, allowed ...string) { out = append(out, asymmetry{sig, allowed}) }
+	// independent of the item type
+	if !descPlain(p.P.Desc) && descExpressible(p.P.Desc) {
+		add("C04 description with a line starting with '#': the reader's commentDescription drops the line", ".description")
+	}
+	if p.P.PK != PSingle && p.P.Opt {
+		add("C04 array or map with optional = true: explicitlyOptional is read back for singular properties only", ".explicitlyOptional")
+	}
+	// by item type (at most one)
+	wk := func(i int) bool {
+		return t.Kind == TStr && t.SFormat == nil && t.Str != nil && t.Str.Pat != nil && *t.Str.Pat == wellKnownPatterns[i]
+	}
+	if p.P.PK == PMap && p.P.T.List != nil {
+		add("C04 map: list rules of the item schema are written on the entry's value field and not read back", item+"."+itemTypeName[t.Kind]+".listRules")
+	}
+	if t.Kind == TObject && t.ObjR != nil && (t.ObjR.Min != nil || t.ObjR.Max != nil) {
+		add("C04 object rules: minProperties / maxProperties compile to an empty (buf.validate.field) and are not read back", item+".object.rules")
+	}
+	switch {
+	case t.Kind == TStr && t.SFormat != nil:
+		add("C04 string format: StringField.format is not written to the descriptor and does not read back", item+".string.format")
+	case wk(2):
+		add("C04 string whose pattern is the published id62 pattern: reads back as key:id62", item+".string", item+".key")
+	case wk(0) || wk(1):
+		add("C04 string whose pattern is the reader's well-known date / number pattern: reads back as format date / number without the pattern", item+".string.format", item+".string.rules.pattern")
+	case t.Kind == TAny && (t.AnyOD || len(t.AnyT) > 0) && p.P.PK != PSingle:
+		add("C04 array of any with onlyDefined / types: (j5.ext.v1.field).any is replaced by the array annotation", item+".any.onlyDefined", item+".any.types")
+	case t.Kind == TKey && (t.KF == KCustom || t.KF == KInformal) && p.P.PK != PSingle:
+		add("C04 array of key:custom / key:informal: the format lives in (j5.ext.v1.field).key, which the array annotation replaces", item+".key", item+".string")
+	case t.Kind == TKey && t.KF == KCustom && t.List != nil:
+		add("C04 key:custom with list rules: written as a unique_string foreign key, reads back as key:informal", item+".key.format")
+	case t.Kind == TKey && t.KF == KNone && t.List != nil:
+		add("C04 key without format but with list rules: reads back as key:informal", item+".key.format")
+	case t.Kind == TKey && t.KF == KNone && p.P.PK != PSingle && t.Entity == nil:
+		add("C04 array of key without format: (j5.ext.v1.field) is the array's, the items read back as string", item+".key", item+".string")
+	case (t.Kind == TDate || t.Kind == TDecimal) && t.Txt != nil && p.P.PK != PSingle:
+		add("C04 array of date/decimal with rules: the rules live in (j5.ext.v1.field), which the array annotation overwrites", item+".date.rules", item+".decimal.rules")
+	case t.Kind == TTimestamp && t.TS != nil && (t.TS.Min != nil || t.TS.Max != nil):
+		add("C04 timestamp rules: the bounds are never written (fields.go: \"None Implemented\"), they read back empty", item+".timestamp.rules")
+	case t.Kind == TObject && t.Flatten && p.P.PK != PSingle:
+		add("C04 array of flattened object: flatten lives in (j5.ext.v1.field), which the array annotation overwrites", item+".object.flatten")
+	}
+	return out
+}
+
+// explain: the known asymmetries that together account for every differing
+// path (each used one accounts for at least one path); nil when some path is
+// left unexplained — the difference then keeps its own path-based signature.
+func explain(p genDecl, raw []string) []string {
+	var sigs []string
+	var allowed []string
+	for _, a := range asymmetryClasses(p) {
+		used := false
+		for _, path := range raw {
+			if allUnder([]string{path}, a.allowed) {
+				used = true
+			}
+		}
+		if used {
+			sigs = append(sigs, a.sig)
+			allowed = append(allowed, a.allowed...)
+		}
+	}
+	if len(sigs) == 0 || !allUnder(raw, allowed) {
+		return nil
+	}
+	return sigs
 }
 
 func allUnder(paths, prefixes []string) bool {
@@ -924,25 +1212,20 @@ func allUnder(paths, prefixes []string) bool {
 	return len(paths) > 0
 }
 
-func optionInfo(e *schema_j5pb.Enum) bool {
-	for _, o := range e.Options {
-		if len(o.Info) != 0 {
-			return true
-		}
-	}
-	return false
-}
 
 // expectedEnum: the schema_j5pb.Enum a declaration denotes (mirrors norm_enum)
 func expectedEnum(env EnumEnv) *schema_j5pb.Enum {
-	out := &schema_j5pb.Enum{Name: env.Name, Description: cleanDesc(env.Desc), Prefix: env.Prefix}
-	out.Options = append(out.Options, &schema_j5pb.Enum_Option{Name: "UNSPECIFIED", Number: 0, Description: cleanDesc(env.UnspecDesc)})
+	out := &schema_j5pb.Enum{Name: env.Name, Description: env.Desc, Prefix: env.Prefix}
+	for _, f := range env.InfoFields {
+		out.Info = append(out.Info, &schema_j5pb.Enum_OptionInfoField{Name: f[0], Label: f[1], Description: f[2]})
+	}
+	out.Options = append(out.Options, &schema_j5pb.Enum_Option{Name: "UNSPECIFIED", Number: 0, Description: env.UnspecDesc, Info: env.UnspecInfo})
 	for i, o := range env.Options {
 		d := ""
 		if i < len(env.OptDescs) {
 			d = env.OptDescs[i]
 		}
-		out.Options = append(out.Options, &schema_j5pb.Enum_Option{Name: strings.TrimPrefix(o, env.Prefix), Number: int32(i + 1), Description: cleanDesc(d)})
+		out.Options = append(out.Options, &schema_j5pb.Enum_Option{Name: strings.TrimPrefix(o, env.Prefix), Number: int32(i + 1), Description: d, Info: env.optInfo(i)})
 	}
 	return out
 }
